@@ -1228,3 +1228,61 @@ def engine_park(tier, seed):
     if not res['errors']:
         cache_put(key, res)
     return res
+
+
+OPWAKEMT_CFG = """SPECIFICATION Spec
+CONSTANTS
+    MaxPolls = %(polls)d
+    Results = %(results)d
+    Multi = %(multi)s
+INVARIANTS
+    NoLostWake
+    NewestStored
+CHECK_DEADLOCK FALSE
+"""
+
+
+def engine_opwake(tier, seed):
+    """C03, completion part, future and Ring on different threads: OpWakeMT.tla and
+    the real code under the baton scheduler (polls with fresh wakers against
+    Ring::poll processing the operation's completions)."""
+    key = 'opwake-%s-%s-%d' % (tier, tree_hash(), seed)
+    cached = cache_get(key)
+    if cached:
+        cached['cached'] = True
+        return cached
+    t0 = time.time()
+    res = {'engine': 'opwake', 'tier': tier, 'tlc': [], 'replays': [], 'divergences': [], 'errors': [], 'samples': [],
+           'cached': False}
+    bindir = build_harness()
+    binary = os.path.join(bindir, 'sched_opwake')
+    for i, m in enumerate([dict(polls=4, results=1, multi='FALSE'), dict(polls=5, results=3, multi='TRUE')]):
+        cfg = write_cfg('opwakemt_%d' % i, OPWAKEMT_CFG % m)
+        r = run_tlc('opwakemt_%d' % i, 'MC_OpWakeMT', cfg, timeout=600)
+        r['purpose'] = 'contract: %s' % m
+        res['tlc'].append(r)
+        if not r['ok']:
+            res['errors'].append('TLC %s: %s' % (r['name'], r['violated'] or r['error']))
+    runs = [dict(kind='single', polls=3, results=1, pre=2), dict(kind='multi', polls=4, results=2, pre=2), dict(kind='multi', polls=5, results=3, pre=2)]
+    if tier == 'thorough':
+        runs = [dict(kind='single', polls=4, results=1, pre=3), dict(kind='multi', polls=5, results=3, pre=3), dict(kind='multi', polls=6, results=4, pre=2)]
+    for i, rn in enumerate(runs):
+        outdir = os.path.join(BUILD, 'replay', 'opwake_%d' % i)
+        args = ['--kind', rn['kind'], '--polls', str(rn['polls']), '--results', str(rn['results']), '--preemptions', str(rn['pre']),
+                '--max-exec', '300000']
+        rc, recs, summary, err = sched_run(binary, args, outdir, 'C03', 'OpWakeMT')
+        if summary is None:
+            res['errors'].append('sched_opwake run %d died (rc %s): %s' % (i, rc, err))
+            continue
+        for rec in recs:
+            if str(rec.get('field', '')).startswith('results handed'):
+                rec['tag'] = 'C02'
+        res['divergences'] += recs
+        res['replays'].append({'model': 'OpWakeMT/real future and Ring::poll on two threads under the baton scheduler', 'variant': json.dumps(rn),
+                               'paths': summary['paths'], 'steps': summary['steps'], 'diverged_paths': summary['diverged_paths'],
+                               'schedule_space_exhausted': summary.get('complete'), 'crashes': 0})
+    res['wall_s'] = round(time.time() - t0, 1)
+    res['divergences_total'] = len(res['divergences'])
+    if not res['errors']:
+        cache_put(key, res)
+    return res
